@@ -16,6 +16,8 @@ var interactiveLines = []string{
 	"nodecount=abc", "nodecount=-1", "nodefraction=x", "divide_by=0", "sample_index=99", "sample_index=", "sample_index=t", "unit=nope", "granularity=nope", "sort=nope",
 	"mean", "mean=2", "call_tree=maybe", "lines", "files=false", "addresses", "o", "options", "help", "help top", "help nope", "nope", "", " ", "=", "a=b", "top >", "top > ", "top >/nonexistent-dir/x", ":", "::",
 	"top | cat", "//: comment", "focus=a //: c", "\x00", "é", "1", "-", ">", "t", "total_t", "mean_t", "n", strings.Repeat("x", 5000),
+	// option names without a value, option names used as commands, a spaced redirect, a leading-dash ignore
+	"focus", "nodecount", "sample_index", "focus a", "nodecount 5", "top > out.txt", "top -a b", "top a -b -c",
 }
 
 func interactiveFamily(c *vk.Ctx, data []byte, idx *int64) {
